@@ -100,8 +100,9 @@ class C10(HistoryCheck):
              "weights": {"new": 4, "scalar": 7, "element": 6, "toplevel": 3, "set": 3, "del": 1.5, "get": 0.5,
                          "deepcopy": 1.5, "nested": 1}}
     N_OPS = {"quick": (6, 20), "thorough": (8, 32)}
-    RULE = ("after every step of a seeded history (classes also hold bound methods, functions, classes, modules and self "
-            "references): seeded pairs / triples of the live pool (same class, class and subclass) are compared with == / != in "
+    RULE = ("after every step of a seeded history (classes also hold bound methods -- of harness objects, of the instance itself, "
+            "of an equal twin --, functions, classes, modules, NaN, and self references directly or through list / dict / KeyedList "
+            "/ KeyedSet): seeded pairs / triples of the live pool (same class, class and subclass) are compared with == / != in "
             "both directions and against the reference attribute-wise comparison; deepcopy and re-construction give equal "
             "instances; each copy-on-write result is compared with its receiver; repr is parsed. evaluations = comparisons + "
             "reprs; distinct_nontrivial = distinct (relation, class pair, position of the first differing attribute, kinds of the "
